@@ -256,6 +256,10 @@ func runC09(c *Ctx) {
 			got := vd.Get()
 			first, last := int(got[0]), int(got[len(got)-1])
 			hist = append(hist, [4]int{t, k, first, last})
+			if m := vd.GetMetric(); int(m.VBucketRangeStart) != first || int(m.VBucketRangeEnd) != last || m.MemberNumber != k || m.TotalMembers != t {
+				c.Violate("metric", fmt.Sprintf("after membership updates %v the discovery metric says member %d/%d range %d-%d but Get() returned %d-%d for member %d/%d",
+					hist, m.MemberNumber, m.TotalMembers, m.VBucketRangeStart, m.VBucketRangeEnd, first, last, k, t), map[string]interface{}{"n": n, "history_t_k_first_last": hist})
+			}
 			seqc = append(seqc, gal.Tuple(gal.N(uint64(n)), gal.N(uint64(t)), gal.N(uint64(k)), gal.Tuple(gal.N(uint64(first)), gal.N(uint64(last)))))
 			seqR = append(seqR, J(map[string]interface{}{"kind": "member-after-updates", "n": n, "history_t_k_first_last": append([][4]int{}, hist...)}))
 			// monitor: same as a fresh computation
